@@ -78,32 +78,54 @@ class Collector:
 # ------------------------------------------------------------------------------------------------------------
 # hexagonal part
 # ------------------------------------------------------------------------------------------------------------
+HEX_DZ = 2.5      # axial step of the hex grids (cm): z of a location = kz * HEX_DZ
+# the spellings of the symmetry a grid is made with (SymmetryType.fromStr: case-insensitive, "core" / "assembly" ignored)
+HEX_SPELL = {"third periodic": {"canonical": "third periodic", "title": "Third Core Periodic", "upper": "THIRD PERIODIC",
+                                "short": "third"},
+             "full": {"canonical": "full", "title": "Full Core", "upper": "FULL", "short": " full "}}
+
+
+def make_hex_grid(grids, pitch, nrings, corner, symmetry):
+    """fromPitch, plus an axial unit step so that locations with k != 0 have a z of their own (built through reduce())"""
+    g0 = grids.HexGrid.fromPitch(pitch, numRings=nrings + 1, cornersUp=corner, symmetry=symmetry)
+    red = list(g0.reduce())
+    steps = [list(r) for r in red[0]]
+    steps[2] = [0.0, 0.0, HEX_DZ]
+    red[0] = tuple(tuple(r) for r in steps)
+    red[2] = (red[2][0], red[2][1], (0, 3))
+    g = grids.HexGrid(*red)
+    if g.cornersUp != corner or abs(g.pitch - pitch) > 1e-12 * pitch:
+        raise tlc.MachineryError("hex grid fixture lost its orientation / pitch")
+    return g
+
+
 class HexWorld:
     def __init__(self, nrings):
         armi_ready()
         from armi.reactor import grids
         from armi.utils import hexagon
 
-        self.grids, self.hexagon = grids, hexagon
-        self.g = {}
-        for o in ("flat", "corner"):
-            for pitch in HEX_PITCHES:
-                for sym in ("third periodic", "full"):
-                    self.g[o, pitch, sym] = grids.HexGrid.fromPitch(pitch, numRings=nrings + 1, cornersUp=(o == "corner"),
-                                                                    symmetry=sym)
+        self.grids, self.hexagon, self.nrings = grids, hexagon, nrings
+        self.cache = {}
+
+    def grid(self, o, pitch, sym, sp="canonical"):
+        key = (o, pitch, sym, sp)
+        if key not in self.cache:
+            self.cache[key] = make_hex_grid(self.grids, pitch, self.nrings, o == "corner", HEX_SPELL[sym][sp])
+        return self.cache[key]
 
 
-def hex_state_case(hw, o, c, obs, col):
+def hex_state_case(hw, o, c, obs, col, sp="canonical"):
     i, j = c
-    case = {"o": o, "c": c}
+    case = {"o": o, "c": c, "sp": sp}
     pl = {"case": case, "kind": "hex-state"}
     for pitch in HEX_PITCHES:
-        g = hw.g[o, pitch, "third periodic"]
+        g = hw.grid(o, pitch, "third periodic", sp)
         u = hex_units(pitch, o)
         col.check("hex:getCoordinates:" + o, obs["xy"], lat(g.getCoordinates((i, j, 0)), u),
                   "cell centre in lattice units (pitch %s)" % pitch, pl)
-    g = hw.g[o, HEX_PITCHES[0], "third periodic"]
-    gf = hw.g[o, HEX_PITCHES[0], "full"]
+    g = hw.grid(o, HEX_PITCHES[0], "third periodic", sp)
+    gf = hw.grid(o, HEX_PITCHES[0], "full", sp)
     loc = g[i, j, 0]
     eq = tup(g.getSymmetricEquivalents((i, j, 0)))
     col.check("hex:getSymmetricEquivalents:set", obs["equivSet"], sorted(eq),
@@ -137,21 +159,24 @@ def hex_state_case(hw, o, c, obs, col):
 
 
 def hex_edge_case(hw, e, col):
-    o, c, k = e["from"]["o"], e["from"]["c"], e["act"]["k"]
+    st = e["from"]
+    o, c, k, kz, sp = st["o"], st["c"], e["act"]["k"], st.get("kz", 0), st.get("sp", "canonical")
     exp = e["obs"]
-    pl = {"case": {"o": o, "c": c, "k": k}, "kind": "hex-rotate"}
+    pl = {"case": {"o": o, "c": c, "k": k, "kz": kz, "sp": sp}, "kind": "hex-rotate"}
     G = hw.grids
     for pitch in HEX_PITCHES:
-        g = hw.g[o, pitch, "full"]
+        g = hw.grid(o, pitch, "full", sp)
         u = hex_units(pitch, o)
-        new = g.rotateIndex(G.IndexLocation(c[0], c[1], 0, g), k)
-        ok = new.grid is g
-        got = {"c": [int(new.i), int(new.j)] if int(new.k) == 0 and ok else [int(new.i), int(new.j), int(new.k), ok],
-               "xy": lat(new.getLocalCoordinates(), u), "ring": int(g.getRingPos(new.indices)[0])}
-        col.check("hex:rotateIndex", exp, got, "rotateIndex(k): cell, centre turned by k*60 degrees ccw, ring (pitch %s)" % pitch, pl)
-    g = hw.g[o, HEX_PITCHES[0], "third periodic"]
-    new = g.rotateIndex(G.IndexLocation(c[0], c[1], 0, None), k)
-    col.check("hex:rotateIndex:gridless", exp["c"], [int(new.i), int(new.j)], "rotateIndex of a location without grid", pl)
+        new = g.rotateIndex(G.IndexLocation(c[0], c[1], kz, g), k)
+        xyz = new.getLocalCoordinates()
+        got = {"c": [int(new.i), int(new.j)] if new.grid is g else [int(new.i), int(new.j), "other grid"],
+               "xy": lat(xyz, u), "ring": int(g.getRingPos(new.indices)[0]), "kz": int(new.k), "z": snap(xyz[2] / HEX_DZ)}
+        col.check("hex:rotateIndex", exp, got,
+                  "rotateIndex(k): cell, centre turned by k*60 degrees ccw, ring, axial index and z kept (pitch %s)" % pitch, pl)
+    g = hw.grid(o, HEX_PITCHES[0], "third periodic", sp)
+    new = g.rotateIndex(G.IndexLocation(c[0], c[1], kz, None), k)
+    col.check("hex:rotateIndex:gridless", exp["c"] + [exp["kz"]], [int(new.i), int(new.j), int(new.k)],
+              "rotateIndex of a location without grid", pl)
 
 
 def run_hex(rep, thorough, seed, mc=True):
@@ -180,7 +205,7 @@ def check_hex(rep, data):
         if key in seen:
             continue
         seen.add(key)
-        hex_state_case(hw, s["st"]["o"], s["st"]["c"], s["obs"], col)
+        hex_state_case(hw, s["st"]["o"], s["st"]["c"], s["obs"], col, s["st"].get("sp", "canonical"))
     n_states = len(seen)
     for e in data["edges"]:
         hex_edge_case(hw, e, col)
@@ -207,7 +232,7 @@ def hex_traces(ntraces, nev, seed, nrings=13):
     gs = {}
     for o in ("flat", "corner"):
         for pitch in HEX_PITCHES:
-            gs[o, pitch] = grids.HexGrid.fromPitch(pitch, numRings=nrings + 1, cornersUp=(o == "corner"))
+            gs[o, pitch] = make_hex_grid(grids, pitch, nrings, o == "corner", "")
     for t in range(ntraces):
         o = rng.choice(["flat", "corner"])
         pitch = rng.choice(HEX_PITCHES)
@@ -217,15 +242,18 @@ def hex_traces(ntraces, nev, seed, nrings=13):
             i, j = rng.randint(-nrings, nrings), rng.randint(-nrings, nrings)
             if max(abs(i), abs(j), abs(i + j)) <= nrings:
                 break
-        loc = grids.IndexLocation(i, j, 0, g)
+        kz0 = rng.randint(0, 2)
+        loc = grids.IndexLocation(i, j, kz0, g)
         ev = []
         for _ in range(nev):
             k = rng.choice([rng.randint(-13, 13), rng.randint(-13, 13), rng.randint(-100000, 100000)])
             loc = g.rotateIndex(loc, k)
-            xy = lat(loc.getLocalCoordinates(), u)
-            xy = [v if isinstance(v, int) else 777777 for v in xy]
-            ev.append({"a": {"n": "Rotate", "k": k}, "post": {"c": [int(loc.i), int(loc.j)], "xy": xy}})
-        out.append({"id": "h%d" % t, "o": o, "c0": [i, j], "ev": ev})
+            xyz = loc.getLocalCoordinates()
+            xy = [v if isinstance(v, int) else 777777 for v in lat(xyz, u)]
+            z = snap(xyz[2] / HEX_DZ)
+            ev.append({"a": {"n": "Rotate", "k": k},
+                       "post": {"c": [int(loc.i), int(loc.j)], "xy": xy, "kz": int(loc.k), "z": z if isinstance(z, int) else 777777}})
+        out.append({"id": "h%d" % t, "o": o, "c0": [i, j], "kz0": kz0, "ev": ev})
     return out
 
 
@@ -237,25 +265,34 @@ class CartWorld:
 
     def __init__(self, r):
         armi_ready()
-        from armi.reactor import geometry, grids
+        from armi.reactor import grids
 
         self.grids, self.r = grids, r
-        D, B = geometry.DomainType, geometry.BoundaryType
-        self.sym = {}
-        for th in (True, False):
-            for bc, (dom, bnd) in {"periodic": (D.QUARTER_CORE, B.PERIODIC), "reflective": (D.QUARTER_CORE, B.REFLECTIVE),
-                                   "full": (D.FULL_CORE, B.NO_SYMMETRY)}.items():
-                self.sym[th, bc] = geometry.SymmetryType(dom, bnd, th)
         self.cache = {}
 
-    def grid(self, th, bc, chain):
+    @staticmethod
+    def spelled(th, bc, sp):
+        """the symmetry string the grid is made with: canonical (= str(SymmetryType)), Title Case with the optional words, UPPER
+        CASE, and a short / padded mixed-case form"""
+        base = {"periodic": "quarter periodic", "reflective": "quarter reflective", "full": "full"}[bc]
+        if sp == "canonical":
+            return base + (" through center" if th else "")
+        if sp == "title":
+            t = {"periodic": "Quarter Core Periodic", "reflective": "Quarter Core Reflective", "full": "Full Core"}[bc]
+            return t + (" Through Center Assembly" if th else "")
+        if sp == "upper":
+            return (base + (" through center assembly" if th else "")).upper()
+        t = {"periodic": " quarter Core Periodic", "reflective": "Quarter", "full": " Full "}[bc]    # "quarter" alone = reflective
+        return t + (" Through center " if th else "")
+
+    def grid(self, th, bc, chain, sp="canonical"):
         """chain = ((w0,h0), (w1,h1), ...) in whole length units"""
-        key = (th, bc, tuple(tuple(p) for p in chain))
+        key = (th, bc, tuple(tuple(p) for p in chain), sp)
         if key not in self.cache:
             w, h = key[2][0]
             # gridBlueprint: isOffset = not isThroughCenterAssembly
             g = self.grids.CartesianGrid.fromRectangle(w * CART_UNIT, h * CART_UNIT, numRings=self.r + 2,
-                                                       symmetry=self.sym[th, bc], isOffset=not th)
+                                                       symmetry=self.spelled(th, bc, sp), isOffset=not th)
             for w, h in key[2][1:]:
                 g.changePitch(w * CART_UNIT, h * CART_UNIT)
             self.cache[key] = g
@@ -293,7 +330,7 @@ def cart_edge_case(cw, e, col):
     st, gname = e["from"], e["act"]["g"]
     th, bc, c = st["th"], st["bc"], st["c"]
     pl = {"case": {"from": st, "g": gname}, "kind": "cart-apply"}
-    g = cw.grid(th, bc, (st["pitch"],))
+    g = cw.grid(th, bc, (st["pitch"],), st.get("sp", "canonical"))
     orbit = sorted([list(c)] + tup(g.getSymmetricEquivalents((c[0], c[1]))))
     tgt = e["obs"]["c"]
     col.check("cart:generator-image-is-equivalent:%s" % bc, True, tgt in orbit,
@@ -321,7 +358,7 @@ def run_cart(rep, thorough, mc=True):
     return {"states": states, "edges": edges, "r": r}
 
 
-def check_cart(rep, data):
+def check_cart(rep, data, two_steps=True):
     cw = CartWorld(data["r"])
     col = Collector(rep)
     obs_of = {}
@@ -330,7 +367,7 @@ def check_cart(rep, data):
     # 1. freshly built grids
     for s in obs_of.values():
         st = s["st"]
-        cart_state_case(cw.grid(st["th"], st["bc"], (st["pitch"],)), st, s["obs"], col)
+        cart_state_case(cw.grid(st["th"], st["bc"], (st["pitch"],), st.get("sp", "canonical")), st, s["obs"], col)
     # 2. generator steps
     gen_edges = [e for e in data["edges"] if e["act"]["n"] == "Apply"]
     for e in gen_edges:
@@ -344,7 +381,7 @@ def check_cart(rep, data):
     for (th, bc, p0), nxt in sorted(steps.items()):
         for p1 in sorted(nxt):
             chains.append((th, bc, (p0, p1)))
-            for p2 in sorted(steps.get((th, bc, p1), ())):
+            for p2 in sorted(steps.get((th, bc, p1), ())) if two_steps else ():
                 chains.append((th, bc, (p0, p1, p2)))
     by_grid = {}
     for s in obs_of.values():
@@ -352,8 +389,8 @@ def check_cart(rep, data):
         by_grid.setdefault((st["th"], st["bc"], tuple(st["pitch"])), []).append(s)
     n_cp = 0
     for th, bc, chain in chains:
-        g = cw.grid(th, bc, chain)
         for s in by_grid[th, bc, chain[-1]]:
+            g = cw.grid(th, bc, chain, s["st"].get("sp", "canonical"))
             cart_state_case(g, s["st"], s["obs"], col, ":afterChangePitch", chain)
             n_cp += 1
     if not chains:
@@ -364,7 +401,7 @@ def check_cart(rep, data):
     rep.add_replay("cartesian-generator-edges", len(gen_edges), sum(1 for e in gen_edges if e["from"]["c"] != e["to"]["c"]),
                    "every generator step (R90 / MX / MY): the image is reported as equivalent and reports the same orbit")
     rep.add_replay("cartesian-changePitch", n_cp, n_cp,
-                   "every ChangePitch edge and every two in a row (%d grid histories): all queries of the target state on the "
+                   "every ChangePitch edge (thorough: and every two in a row; %d grid histories): all queries of the target state on the "
                    "real grid after changePitch" % len(chains))
     mid = data["states"][len(data["states"]) // 2]
     rep.sample({"kind": "cart-state", "st": mid["st"], "expected": mid["obs"]})
@@ -614,7 +651,7 @@ class BlockAdapter:
             deg = 0
         if float(ori[0]) != 0.0 or float(ori[1]) != 0.0:
             deg = {"orientation": [float(x) for x in ori]}
-        return {"kids": kids, "pins": pins, "pinxy": pinxy, "bp": bp, "disp": disp, "deg": deg}
+        return {"kids": kids, "pins": pins, "pinxy": pinxy, "bp": bp, "disp": disp, "deg": deg, "rotnum": snap(b.getRotationNum())}
 
     @staticmethod
     def _cell(loc):
@@ -747,12 +784,171 @@ def check_blocks(rep, graphs, thorough, seed, ad=None):
             "every edge (s,a,t) of TLC's graph is executed as path(s);a on freshly copied real HexBlocks inside a real "
             "HexAssembly and the complete projection (child locators, pins, pin coordinates, all corner/edge parameters, "
             "displacement, orientation, error) compared; non-trivial = the abstract state changes",
-            None if thorough else 4000, rng)
+            None if thorough else 2400, rng)
         total += n
         e = g.edges[len(g.edges) // 2]
         rep.sample({"kind": "block-edge", "config": cfg, "path": [s["act"] for s in g.path[e["_fk"]]], "act": e["act"],
                     "expected_block_1": {k: e["obs"]["blocks"][0][k] for k in ("pins", "pinxy", "disp", "deg")}})
     return total
+
+
+# ------------------------------------------------------------------------------------------------------------
+# third core -> full core (ThirdCoreHexToFullCoreChanger) as a client of the symmetry / rotation operations
+# ------------------------------------------------------------------------------------------------------------
+CORE_PITCH = 17.0
+
+
+class CoreAdapter:
+    """a real Reactor/Core on a third-core hex grid, loaded with BlockAdapter assemblies; Grow / Shrink run the real converter"""
+    name = "third-to-full"
+
+    def __init__(self, block_adapter):
+        armi_ready()
+        from armi import settings
+        from armi.reactor import blueprints, geometry, grids, reactors
+        from armi.reactor.converters import geometryConverters
+
+        self.ba, self.grids, self.reactors, self.blueprints, self.geometry = block_adapter, grids, reactors, blueprints, geometry
+        self.gc, self.cs = geometryConverters, settings.Settings()
+
+    def build(self, root):
+        if root["sym"] != "third" or any(root["steps"]):
+            raise tlc.MachineryError("ThirdToFull root is not an initial state")
+        r = self.reactors.Reactor("Reactor", self.blueprints.Blueprints())
+        r.add(self.reactors.Core("Core"))
+        corner = root["o"] == "corner"
+        # the way armi.tests.getEmptyHexReactor sets a third-core grid up; the symmetry is spelled differently per loading
+        g = self.grids.HexGrid.fromPitch(CORE_PITCH, cornersUp=corner)
+        g.symmetry = list(HEX_SPELL["third periodic"].values())[root["v"] % 4]
+        g.geomType = self.geometry.HEX_CORNERS_UP if corner else self.geometry.HEX
+        g.armiObject = r.core
+        r.core.spatialGrid = g
+        cfg_of = {}
+        for x, ld in enumerate(root["load"]):
+            w = self.ba.build({"cfg": ld["cfg"]})
+            a = w["asm"]
+            a.setType("load%d" % x)
+            cfg_of["load%d" % x] = ld["cfg"]
+            r.core.add(a, r.core.spatialGrid[ld["c"][0], ld["c"][1], 0])
+        return {"r": r, "cfg_of": cfg_of, "load": root["load"], "changer": self.gc.ThirdCoreHexToFullCoreChanger(self.cs),
+                "o": root["o"], "err": ""}
+
+    def apply(self, w, act):
+        n = act["n"]
+        w["err"] = ""
+        try:
+            if n == "PreRotate":
+                c = w["load"][act["x"] - 1]["c"]
+                a = w["r"].core.childrenByLocator[w["r"].core.spatialGrid[c[0], c[1], 0]]
+                a.rotate(act["k"] * math.pi / 3)
+            elif n == "Grow":
+                w["changer"].convert(w["r"])
+            elif n == "Shrink":
+                w["changer"].restorePreviousGeometry(w["r"])
+            else:
+                raise AssertionError("unknown action " + n)
+        except (ValueError, TypeError, RuntimeError, KeyError, IndexError) as ex:
+            w["err"] = type(ex).__name__
+        return w["err"]
+
+    def project(self, w):
+        core = w["r"].core
+        u = hex_units(CORE_PITCH, w["o"])
+        out = []
+        for a in sorted(core, key=lambda a: (int(a.spatialLocator.i), int(a.spatialLocator.j))):
+            cfgs = w["cfg_of"].get(a.getType())
+            loc = a.spatialLocator
+            if cfgs is None or len(a) != len(cfgs):
+                out.append({"c": [int(loc.i), int(loc.j)], "xy": [], "blocks": "unknown assembly %s" % a.getType()})
+                continue
+            out.append({"c": [int(loc.i), int(loc.j)], "xy": lat(loc.getGlobalCoordinates(), u),
+                        "blocks": [self.ba.project_block(b, cf) for b, cf in zip(a, cfgs)]})
+        dom = str(core.symmetry.domain)
+        return {"err": w["err"], "sym": "full" if core.isFullCore else ("third" if "third" in dom.lower() else dom), "core": out}
+
+
+def core_key(div):
+    import re
+    path = re.sub(r"\[\d+\]", "", div["first_difference"].split(":")[0])
+    return "core:%s:%s" % (div["action"]["n"], path)
+
+
+def run_core(rep, thorough):
+    cfg = "ThirdToFull_mc%s.cfg" % ("_thorough" if thorough else "")
+    res = tlc.run("ThirdToFull_mc", cfg, MODDIR, workers=1, coverage=False, timeout=2400)
+    rep.add_tlc("third-to-full (exhaustive + edges):" + cfg, res)
+    verdict(rep, res, "ThirdToFull")
+    obs = {rp.skey(p["st"]): p["obs"] for p in res.prints if isinstance(p, dict) and "st" in p}
+    edges = []
+    for e in res.prints:
+        if isinstance(e, dict) and "act" in e and rp.skey(e["to"]) in obs:
+            e["obs"] = dict(obs[rp.skey(e["to"])], err="")
+            e["err"] = ""
+            edges.append(e)
+    names = {e["act"]["n"] for e in edges}
+    if not {"PreRotate", "Grow", "Shrink"} <= names and not res.violation:
+        raise tlc.MachineryError("ThirdToFull: actions never taken: %s" % sorted({"PreRotate", "Grow", "Shrink"} - names))
+    g = rp.Graph(edges)
+    g.obs_of = obs
+    return g
+
+
+def check_core(rep, graph, ba=None):
+    ad = CoreAdapter(ba or BlockAdapter())
+    n = nontriv = 0
+    checked_roots = set()
+    done = set()
+
+    def compare(e, pre, w):
+        nonlocal n, nontriv
+        got = ad.project(w)
+        n += 1
+        nontriv += e["_fk"] != e["_tk"]
+        done.add(id(e))
+        d = rp.diff(e["obs"], got)
+        if d:
+            div = {"diverged_at": len(pre) + 1, "first_difference": d, "root": pre[0]["from"] if pre else e["from"],
+                   "behaviour": [s["act"] for s in pre] + [e["act"]], "action": e["act"], "expected": e["obs"], "observed": got}
+            rep.violation(core_key(div), "real third-core -> full-core conversion diverges from ThirdToFull after %s: %s" % (
+                json.dumps(e["act"]), d), dict(div, direction="replay", adapter=ad.name))
+        return not d
+
+    for e in graph.edges:
+        if id(e) in done:
+            continue
+        pre = graph.path.get(e["_fk"])
+        if pre is None:
+            continue
+        root = pre[0]["from"] if pre else e["from"]
+        rk = rp.skey(root)
+        if rk not in checked_roots:
+            checked_roots.add(rk)
+            d0 = rp.diff(dict(graph.obs_of[rk], err=""), ad.project(ad.build(root)))
+            if d0:
+                raise tlc.MachineryError("third-core fixture is not the specification's initial state: %s" % d0)
+        w = ad.build(root)
+        if any(ad.apply(w, s["act"]) for s in pre):
+            continue
+        if pre and rp.diff(graph.obs_of[e["_fk"]], ad.project(w)):
+            continue     # the source state was not reached: reported for the earlier edge
+        ad.apply(w, e["act"])
+        ok = compare(e, pre, w)
+        # the conversion is expensive: the edge that undoes it is replayed on the same world when that world is its BFS prefix
+        if ok and e["act"]["n"] == "Grow":
+            for f in graph.succ.get(e["_tk"], ()):
+                fpre = graph.path.get(f["_fk"])
+                if id(f) not in done and fpre and fpre[-1] is e:
+                    ad.apply(w, f["act"])
+                    compare(f, fpre, w)
+                    break
+    rep.add_replay("third-to-full-edges", n, nontriv,
+                   "every edge of ThirdToFull (pre-rotation of one assembly, convert, restorePreviousGeometry) on a real core of six "
+                   "two-block assemblies: cell, global coordinates and the complete block projection of every assembly compared")
+    e = next((x for x in graph.edges if x["act"]["n"] == "Grow"), None)
+    if e:
+        rep.sample({"kind": "third-to-full", "path": [s["act"] for s in graph.path[e["_fk"]]], "act": e["act"],
+                    "expected_cells_and_rotnum": [[a["c"], a["blocks"][0]["rotnum"]] for a in e["obs"]["core"]]})
+    return n
 
 
 LAYOUTS = ["p1", "p7", "p19", "singles", "mixed", "nogrid", "prism", "families"]
@@ -830,7 +1026,7 @@ def trace_verdicts(rep, bad, what):
 def run(rep, tier, seed):
     thorough = tier == "thorough"
     if thorough:   # quick: TLC parses the same modules anyway (a parse error is a MachineryError there too); saves five JVM starts
-        for m in ("HexSymmetry_mc", "CartSymmetry_mc", "BlockRotation_mc", "HexSymmetry_trace", "BlockRotation_trace"):
+        for m in ("HexSymmetry_mc", "CartSymmetry_mc", "BlockRotation_mc", "ThirdToFull_mc", "HexSymmetry_trace", "BlockRotation_trace"):
             tlc.sany(m, MODDIR)
 
     # 1. the three exhaustive TLC runs (16 workers each, one after the other) proceed in a helper thread while the main
@@ -840,7 +1036,9 @@ def run(rep, tier, seed):
             ("block-exhaustive", "BlockRotation", ["RotateBlockB", "RotateAssemblyB", "RotateAssemblyOffGridB"])]
 
     def exhaustive():
-        return [(lab, mod, acts, tlc.run(mod + "_mc", "%s_mc%s.cfg" % (mod, sfx), MODDIR, want_prints=False, timeout=2400))
+        # quick: the models are small, 4 workers cost a third less CPU than 16 for the same wall time
+        return [(lab, mod, acts, tlc.run(mod + "_mc", "%s_mc%s.cfg" % (mod, sfx), MODDIR, want_prints=False, timeout=2400,
+                                         workers=None if thorough else 4))
                 for lab, mod, acts in jobs]
     pool = concurrent.futures.ThreadPoolExecutor(max_workers=1)
     fut = pool.submit(exhaustive)
@@ -849,10 +1047,11 @@ def run(rep, tier, seed):
         hdata = run_hex(rep, thorough, seed, mc=False)
         check_hex(rep, hdata)
         cdata = run_cart(rep, thorough, mc=False)
-        check_cart(rep, cdata)
+        check_cart(rep, cdata, two_steps=thorough)
         graphs = run_blocks(rep, thorough, mc=False)
         ad = BlockAdapter()
         check_blocks(rep, graphs, thorough, seed, ad)
+        check_core(rep, run_core(rep, thorough), ad)
         rep.exhaustive = thorough
     finally:
         results = fut.result()      # re-raises a MachineryError of the helper thread
@@ -897,6 +1096,14 @@ def run(rep, tier, seed):
 # ------------------------------------------------------------------------------------------------------------
 def replay(payload):
     d = payload.get("direction")
+    if d == "replay" and payload.get("adapter") == "third-to-full":
+        ad = CoreAdapter(BlockAdapter())
+        w = ad.build(payload["root"])
+        for a in payload["behaviour"]:
+            ad.apply(w, a)
+        diff = rp.diff(payload["expected"], ad.project(w))
+        print(json.dumps({"behaviour": payload["behaviour"], "first_difference": diff}, indent=1))
+        return 1 if diff else 0
     if d == "replay":
         ad = BlockAdapter()
         w = ad.build(payload["root"])
@@ -923,13 +1130,14 @@ def replay(payload):
             data = run_hex(r, False, 0, mc=False)
             hw = HexWorld(data["nrings"])
             for s in data["states"]:
-                if s["st"] == c:
-                    hex_state_case(hw, c["o"], c["c"], s["obs"], col)
+                if s["st"]["o"] == c["o"] and s["st"]["c"] == c["c"]:
+                    hex_state_case(hw, c["o"], c["c"], s["obs"], col, c.get("sp", "canonical"))
+                    break
         elif kind == "hex-rotate":
             data = run_hex(r, payload.get("tier") == "thorough", 0, mc=False)
             hw = HexWorld(data["nrings"])
             for e in data["edges"]:
-                if e["from"] == {"o": c["o"], "c": c["c"]} and e["act"]["k"] == c["k"]:
+                if e["from"]["o"] == c["o"] and e["from"]["c"] == c["c"] and e["act"]["k"] == c["k"]:
                     hex_edge_case(hw, e, col)
         elif kind in ("cart-state", "cart-apply"):
             data = run_cart(r, payload.get("tier") == "thorough", mc=False)
@@ -938,7 +1146,7 @@ def replay(payload):
                 for s in data["states"]:
                     if s["st"] == c:
                         chain = tuple(tuple(x) for x in payload.get("pitch_history", [c["pitch"]]))
-                        cart_state_case(cw.grid(c["th"], c["bc"], chain), c, s["obs"], col,
+                        cart_state_case(cw.grid(c["th"], c["bc"], chain, c.get("sp", "canonical")), c, s["obs"], col,
                                         ":afterChangePitch" if len(chain) > 1 else "", chain)
             else:
                 for e in data["edges"]:
@@ -1119,6 +1327,51 @@ def _mutants():
         self._offset = np.array((self._offset[0] * xw / xwOld, self._offset[1] * xw / ywOld, 0.0))
     out.append(("CartesianGrid.changePitch: y offset rescaled with xw instead of yw", "cart", patch(CG, "changePitch", change_pitch)))
 
+    # source-level mutants: the method's own source with one edit, re-executed in its module
+    def source_mutant(owner, name, edits, module, wrap=None):
+        import inspect
+        import textwrap
+        raw = owner.__dict__[name]
+        fn = raw.__func__ if isinstance(raw, (classmethod, staticmethod)) else raw
+        src = textwrap.dedent(inspect.getsource(fn))
+        for a, b in edits:
+            if a not in src:
+                raise tlc.MachineryError("selftest: source of %s no longer contains %r" % (name, a))
+            src = src.replace(a, b)
+        ns = dict(vars(module))
+        exec(src, ns)
+        new = ns[name]
+
+        def on():
+            setattr(owner, name, wrap(new) if wrap else new)
+
+        def off():
+            setattr(owner, name, raw)
+        return on, off
+
+    from armi.reactor import geometry
+    from armi.reactor.converters import geometryConverters
+    out.append(("third->full conversion: copies rotated by 0 and 120 degrees (0-based count)", "core",
+                source_mutant(geometryConverters.ThirdCoreHexToFullCoreChanger, "convert",
+                              [("count = 1\n", "pass\n"), ("for i, j in otherLocs:", "for count, (i, j) in enumerate(otherLocs):"),
+                               ("count += 1\n", "pass\n")], geometryConverters)))
+    out.append(("getRotationNum without '% 6'", "block,core",
+                patch(HB, "getRotationNum", lambda self: int(__import__("numpy").rint(self.p.orientation[2] / 60.0)))))
+    out.append(("SymmetryType.fromStr: through-centre test on the raw (not lower-cased) string", "cart",
+                source_mutant(geometry.SymmetryType, "fromStr", [("_checkIfThroughCenter(canonical)", "_checkIfThroughCenter(symmetryString)")],
+                              geometry, classmethod)))
+
+    def rot_index_k0(self, loc, rotations):
+        i, j = loc[:2]
+        buffer = deque((i, j, -(i + j)))
+        buffer.rotate(-rotations)
+        newI, newJ = buffer[0], buffer[1]
+        if rotations % 2:
+            newI *= -1
+            newJ *= -1
+        return IndexLocation(newI, newJ, 0, loc.grid)
+    out.append(("rotateIndex drops the axial index", "hex", patch(HG, "rotateIndex", rot_index_k0)))
+
     # 12 pivot direction reversed (as seen from blocks.py)
     orig_pivot = iterables.pivot
     out.append(("corner/edge data pivoted the other way", "block", patch(iterables, "pivot", lambda items, position: orig_pivot(items, -position))))
@@ -1240,11 +1493,13 @@ def selftest():
     hdata = run_hex(rep0, False, 0, mc=False)
     cdata = run_cart(rep0, False, mc=False)
     graphs = run_blocks(rep0, False, mc=False)
+    cgraph = run_core(rep0, False)
 
     def evaluate(parts):
         r = _Rep()
         for name, fn in (("hex", lambda: check_hex(r, hdata)), ("cart", lambda: check_cart(r, cdata)),
-                         ("block", lambda: check_blocks(r, graphs, False, 0, BlockAdapter()))):
+                         ("block", lambda: check_blocks(r, graphs, False, 0, BlockAdapter())),
+                         ("core", lambda: check_core(r, cgraph, BlockAdapter()))):
             if name not in parts:
                 continue
             try:
@@ -1255,7 +1510,7 @@ def selftest():
                 r.keys["crash(%s): %s" % (name, type(ex).__name__)] = 1
         return r.keys
 
-    base = evaluate({"hex", "cart", "block"})
+    base = evaluate({"hex", "cart", "block", "core"})
     print("baseline (unchanged code) keys: %s" % (sorted(base) or "none"))
     missed = 0
     for desc, parts, (on, off) in _mutants():
@@ -1270,7 +1525,7 @@ def selftest():
         else:
             missed += 1
             print("MISSED  %s" % desc)
-    after = evaluate({"hex", "cart", "block"})
+    after = evaluate({"hex", "cart", "block", "core"})
     if sorted(after) != sorted(base):
         print("MISSED  restoring the original code did not restore the baseline: %s" % sorted(after))
         missed += 1
